@@ -250,6 +250,30 @@ def _enum(arcs, frs, drv="full", peer="full"):
     return gen
 
 
+def _enum_hist(depth, drv="full", peer="full"):
+    """every history of `depth` calls over {send, resend} x send_only with one attempt per call
+    (arc=0) and every outcome word; ACK payloads loaded so stale/own payload mix-ups show"""
+    def gen():
+        calls_alpha = [("send", True), ("send", False), ("resend", True), ("resend", False)]
+        for mode, ackpl in (("ackpl", ["a1", "b2b2", "c3c3c3"]), ("aa", [])):
+            for d in range(2, depth + 1):
+                if mode == "aa" and d > 3:
+                    continue
+                for hist in itertools.product(calls_alpha, repeat=d):
+                    if hist[0][0] == "resend":
+                        continue
+                    for word in itertools.product("DPA", repeat=d):
+                        calls = []
+                        for i, (k, so) in enumerate(hist):
+                            if k == "send":
+                                calls.append(["send", "%02x%02x" % (0x10 + i, 0x77), False, 0, so])
+                            else:
+                                calls.append(["resend", so])
+                        yield {"drv": drv, "peer": peer, "rate": 1, "arc": 0, "ard": 1, "mode": mode, "listening": True,
+                               "ackpl": ackpl, "word": "".join(word), "default": "D", "calls": calls}
+    return gen
+
+
 def strategy(drv="full", peer="full"):
     from hypothesis import strategies as st
     buf = st.binary(min_size=1, max_size=32).map(bytes.hex)
@@ -277,6 +301,8 @@ def strategy(drv="full", peer="full"):
 def parts(tier):
     if tier == "quick":
         return [Part("enum-arc<=1-fr<=1", "enum", _enum((0, 1), (0, 1)), exhaustive=True),
+                Part("enum-histories-depth4", "enum", _enum_hist(4), exhaustive=True),
                 Part("generated", "gen", strategy, n=1500)]
     return [Part("enum-arc<=2-fr<=1", "enum", _enum((0, 1, 2), (0, 1)), exhaustive=True),
+            Part("enum-histories-depth5", "enum", _enum_hist(5), exhaustive=True),
             Part("generated", "gen", strategy, n=60000)]
